@@ -64,7 +64,18 @@ EXPLANATION = (
     "into canonical form with indices.sort_idx_canonical and AntiSymmetricTensor._need_bra_ket_swap evaluated from the "
     "source and mapped back: it has to be the canonical form of the term again, otherwise the map that "
     "find_compatible_terms finds is discarded because term - other.subs(map) stays a sum; the R07e equivariance checks "
-    "use the same evaluated canonical form.")
+    "use the same evaluated canonical form. R07i (views follow the container): an Expr record is initialised by "
+    "Expr.__init__ from the source around a wrapped sum of small tensor products; Expr.terms, Term.__init__/sympy/objects/"
+    "target/contracted/pattern/coupling, Obj.__init__/description/crude_pos and the mutators set_target_idx, set_sym_tensors, "
+    "set_antisym_tensors, make_real are evaluated from the source with the per-instance memoisation of misc.cached_member / "
+    "cached_property modelled on the records (tables kept in _function_cache / _property_cache of the instance, so code that "
+    "clears them is honoured). For every listed history (explicit targets -> Einstein convention, -> fewer / more explicit "
+    "targets, declared bra-ket (anti)symmetry followed by a change of the targets, real orbitals, ...) everything simplify reads "
+    "off the views handed out by Expr.terms AFTER the last mutator (wrapped term, target, contracted, provided targets, real / "
+    "sym / antisym tensors, pattern, descriptions, positions) is (1) the same whether or not the terms and their fingerprints "
+    "were read before each mutator, (2) target / contracted / provided targets equal the independently computed ones (sorted "
+    "provided tuple, or the indices occurring once), also seen from the objects, and (3) the descriptions obey the R07e "
+    "partition for the CURRENT target indices and tensor symmetries.")
 ASSUMPTIONS = [
     "completeness of the pattern fingerprints for arbitrary terms (that alpha-equivalent terms are always found) is "
     "decided only on the listed tables of small tensors/terms (bounded)",
@@ -81,7 +92,14 @@ ASSUMPTIONS = [
     "find_compatible_terms / simplify are evaluated for at most five terms and 24 maps per pair (bounded)",
     "R07f: histories of two calls on the listed input pairs; the sympy content of a term is an individual (equal iff the "
     "same term), assumptions other than the target indices are taken to be reflected in the sympy content (sym_tensors / "
-    "real modify the tensors themselves); state outside simplify.py (cached_member of the containers) is not modelled",
+    "real modify the tensors themselves); in R07f state outside simplify.py (cached_member of the containers) is not modelled - "
+    "that is R07i",
+    "R07i: the per-instance memoisation of misc.cached_member / cached_property is modelled (result stored per instance and "
+    "argument tuple with defaults filled in), not evaluated from misc.py; Term._apply_tensor_braket_sym / Term.make_real / "
+    "sympy.Add / sympify / get_symbols are modelled on the tensor tables (a new wrapped object with the declared symmetry / "
+    "real names); Expr.__getattr__ / Term.__getattr__ delegate `args` to the wrapped object (modelled); histories of at most "
+    "three mutators on the listed expressions (bounded); only views obtained from Expr.terms after the last mutator are "
+    "constrained - a Term object the caller kept from before is a stale view in the library as it is and is not judged",
 ]
 
 FCT = "simplify:find_compatible_terms"
@@ -1436,6 +1454,288 @@ def r07g_order(ctx, cap=24):
     ctx.floor(rule, "orders of Expr.terms evaluated", n, 20)
 
 
+# ---------------------------------------------------------------------------------------------------------------------
+# R07i: the Term / Obj views of an Expr reflect its CURRENT assumptions, whatever was read before
+
+def _inline_views(q):
+    return q.startswith("expr_container:") or q == "indices:sort_idx_canonical"
+
+
+class ViewWorld:
+    """One Expr record per path: the wrapped sympy object is a record `Add(c0, c1, ..)` whose arguments carry the table
+    of tensors of the term; everything that depends on the assumptions of the expression (target / contracted indices,
+    descriptions, positions, couplings, patterns, the term list itself) is evaluated from the source of expr_container with
+    the per-instance memoisation of misc.cached_member / cached_property modelled on the records."""
+
+    def __init__(self, sx, terms, target_idx=None):
+        from ..symex import Func
+        self.w = World()
+        self.n = 0
+        sx.hooks.update(self.hooks())
+        # the record is initialised by Expr.__init__ itself (private fields a refactoring adds included)
+        self.e = Obj("expr_container:Expr", "expr")
+        init = sx.find_method("expr_container:Expr", "__init__")[0]
+        sx._invoke(Func(init, [], init._module, init._qual, bound=self.e), [self.content(terms)], {"target_idx": target_idx}, None)
+        if not isinstance(self.e.attrs.get("_expr"), Obj):
+            raise AnalysisError("C07: Expr.__init__ does not store the wrapped object in the modelled way")
+
+    def content(self, terms):
+        self.n += 1
+        args = []
+        for k, tens in enumerate(terms):
+            c = Obj(None, f"S{self.n}.{k}")
+            c.attrs.update(_classes={"Mul"} if len(tens) > 1 else set(), _tensors=[dict(t) for t in tens], is_number=False)
+            args.append(c)
+        if len(args) == 1:
+            return args[0]
+        s = Obj(None, f"S{self.n}")
+        s.attrs.update(_classes={"Add"}, args=tuple(args), is_number=False, _terms=args)
+        return s
+
+    def with_tensors(self, content, change):
+        """A new wrapped object: ``change(tensor spec) -> tensor spec`` applied to every tensor."""
+        parts = content.attrs["args"] if "Add" in content.attrs["_classes"] else (content,)
+        return self.content([[change(dict(t)) for t in c.attrs["_tensors"]] for c in parts])
+
+    # ---- the vocabulary below expr_container: sympy objects, index symbols
+    def hooks(self):
+        from ..symex import Func
+
+        def construct(sx, cls, label, a, kw):
+            o = Obj(f"expr_container:{cls}", label)
+            init = sx.find_method(f"expr_container:{cls}", "__init__")[0]
+            sx._invoke(Func(init, [], init._module, init._qual, bound=o), list(a), kw, None)
+            return o
+
+        def term_ctor(sx, a, kw):
+            if not (a and isinstance(a[0], Obj) and a[0].cls == "expr_container:Expr"):
+                return NotImplemented
+            self.n += 1
+            return construct(sx, "Term", f"term#{self.n}", a, kw)
+
+        def obj_ctor(sx, a, kw):
+            if not (a and isinstance(a[0], Obj) and a[0].cls == "expr_container:Term"):
+                return NotImplemented
+            self.n += 1
+            o = construct(sx, "Obj", f"obj#{self.n}", a, kw)
+            pos = a[1] if len(a) > 1 else kw.get("pos")
+            ts = sx.getattr(a[0], "sympy", None).attrs["_tensors"][pos]
+            base = Obj(None, f"{o.name}.base")
+            idx = self.w.tup(ts["upper"] + ts["lower"])
+            base.attrs.update(_classes=set(ANTI.get(ts["kind"]) or OTHER[ts["kind"]]), name=ts["name"], upper=self.w.tup(ts["upper"]),
+                              lower=self.w.tup(ts["lower"]), bra_ket_sym=ts["bks"], idx=idx)
+            o.attrs.update(base=base, base_and_exponent=(base, ts["exp"]), exponent=ts["exp"], idx=idx, name=ts["name"],
+                           type_as_str=ts["kind"], sympy=sym(f"{o.name}.sympy"))
+            return o
+
+        def length(sx, a, kw):
+            if len(a) == 1 and isinstance(a[0], Obj) and a[0].cls == "expr_container:Expr":
+                c = a[0].attrs["_expr"]
+                return len(c.attrs["args"]) if "Add" in c.attrs["_classes"] else 1
+            if len(a) == 1 and isinstance(a[0], Obj) and a[0].cls == "expr_container:Term":
+                return len(sx.getattr(a[0], "sympy", None).attrs["_tensors"])
+            return NotImplemented
+
+        def get_symbols(sx, a, kw):
+            v = a[0] if a else kw.get("idx")
+            if isinstance(v, str):
+                return [self.w.idx(c) for c in v]
+            if isinstance(v, Obj):
+                return [v]
+            if isinstance(v, (list, tuple, set)) and all(isinstance(x, Obj) for x in v):
+                return list(v)
+            return NotImplemented
+
+        def braket(sx, a, kw):
+            # Term._apply_tensor_braket_sym(return_sympy=True): the term with the bra-ket symmetry the expression declares
+            t = a[0]
+            e = sx.getattr(t, "expr", None)
+            symt, anti = set(sx.getattr(e, "sym_tensors", None)), set(sx.getattr(e, "antisym_tensors", None))
+            c = sx.getattr(t, "sympy", None)
+            return self.with_tensors(c, lambda ts: dict(ts, bks=1 if ts["name"] in symt else -1 if ts["name"] in anti else ts["bks"])
+                                     if ts["kind"] in ANTI else ts)
+
+        def make_real(sx, a, kw):
+            c = sx.getattr(a[0], "sympy", None)
+            return self.with_tensors(c, lambda ts: dict(ts, name=ts["name"].replace("cc", "")))
+
+        def add_ctor(sx, a, kw):
+            if not a or not all(isinstance(x, Obj) and "_tensors" in x.attrs for x in a):
+                return NotImplemented
+            return self.content([x.attrs["_tensors"] for x in a])
+        def sympify(sx, a, kw):
+            return a[0] if len(a) == 1 and isinstance(a[0], Obj) else NotImplemented
+        return {"Term": term_ctor, "Obj": obj_ctor, "len": length, "sympify": sympify, "get_symbols": get_symbols, "S": _sympy_S(),
+                "Term._apply_tensor_braket_sym": braket, "Term.make_real": make_real, "Add": add_ctor}
+
+    @staticmethod
+    def attr_hook(sx, obj, attr, node):
+        # Expr.__getattr__ / Term.__getattr__: unknown attributes are those of the wrapped sympy object
+        if isinstance(obj, Obj) and attr == "args" and obj.cls in ("expr_container:Expr", "expr_container:Term"):
+            return sx.getattr(sx.getattr(obj, "sympy", node), "args", node)
+        return NotImplemented
+
+
+def _plain(v):
+    if isinstance(v, Obj):
+        return v.attrs.get("name") if "space" in v.attrs else v.name
+    if isinstance(v, T):
+        return show(v)
+    if isinstance(v, dict):
+        return tuple(sorted(((_plain(k), _plain(x)) for k, x in v.items()), key=repr))
+    if isinstance(v, (set, frozenset)):
+        return tuple(sorted((_plain(x) for x in v), key=repr))
+    if isinstance(v, (list, tuple)):
+        return tuple(_plain(x) for x in v)
+    return v
+
+
+def _observe(sx, vw):
+    """Everything simplify reads off the terms of the expression (and the assumptions the views report)."""
+    out = []
+    terms = sx.getattr(vw.e, "terms", None)
+    if not isinstance(terms, (tuple, list)):
+        raise AnalysisError(f"C07: Expr.terms is not a sequence of views: {show(terms)[:120]}")
+    for t in terms:
+        c = sx.getattr(t, "sympy", None)
+        rec = {"wrapped": c, "tensors": tuple(_label(ts, ()) for ts in c.attrs["_tensors"]) if isinstance(c, Obj) and "_tensors" in c.attrs else None}
+        for a in ("target", "contracted", "provided_target_idx", "real", "sym_tensors", "antisym_tensors"):
+            rec[a] = sx.getattr(t, a, None)
+        rec["pattern"] = sx.call_method(t, "pattern", [], {}, None)
+        objs = sx.getattr(t, "objects", None)
+        rec["description"] = [sx.call_method(o, "description", [], {}, None) for o in objs]
+        rec["crude_pos"] = [sx.call_method(o, "crude_pos", [], {}, None) for o in objs]
+        rec["object target"] = [sx.getattr(sx.getattr(o, "term", None), "target", None) for o in objs]
+        rec["_specs"] = [dict(ts) for ts in c.attrs["_tensors"]] if rec["tensors"] is not None else None
+        out.append(rec)
+    return out
+
+
+def view_mutators(tier):
+    """name -> (initial target | None, list of (method, args)) applied to one Expr object."""
+    st = lambda x: ("set_target_idx", [x])
+    m = {
+        "explicit targets ij -> Einstein convention": ("ij", [st(None)]),
+        "explicit targets ij -> explicit target i": ("ij", [st("i")]),
+        "Einstein convention -> explicit targets ij": (None, [st("ij")]),
+        "explicit target i -> explicit targets ij": ("i", [st("ij")]),
+        "bra-ket symmetry declared for f": ("ij", [("set_sym_tensors", [["f"]])]),
+        "bra-ket antisymmetry declared for f, then Einstein convention": ("ij", [("set_antisym_tensors", [["f"]]), st(None)]),
+    }
+    if tier == "thorough":
+        m.update({
+            "explicit targets ij -> i -> ij": ("ij", [st("i"), st("ij")]),
+            "Einstein convention -> explicit targets ijk (all indices)": (None, [st("ijk")]),
+            "targets dropped, then bra-ket symmetry declared": ("ij", [st(None), ("set_sym_tensors", [["f"]])]),
+            "real orbitals, then explicit target i": ("ij", [("make_real", []), st("i")]),
+        })
+    return m
+
+
+def view_expressions(tier):
+    A, N = "antisymtensor", "nonsymtensor"
+    ex = {
+        "f^i_j X_j + f^i_k X_k": [[tensor(A, "f", "i", "j"), tensor(N, "X", "j")], [tensor(A, "f", "i", "k"), tensor(N, "X", "k")]],
+    }
+    if tier == "thorough":
+        ex["V^ij_ab t^ab_kl Y_kl + V^il_ab t^ab_kj Y_kj"] = [
+            [tensor(A, "V", "ij", "ab", 1), tensor("amplitude", "t2", "ab", "kl"), tensor(N, "Y", "kl")],
+            [tensor(A, "V", "il", "ab", 1), tensor("amplitude", "t2", "ab", "kj"), tensor(N, "Y", "kj")]]
+        ex["f^i_j f^j_k X_k (one term, repeated tensor)"] = [[tensor(A, "f", "i", "j"), tensor(A, "f", "j", "k"), tensor(N, "X", "k")]]
+    return ex
+
+
+def _einstein(tens):
+    cnt = {}
+    for ts in tens:
+        for x in ts["upper"] + ts["lower"]:
+            cnt[x] = cnt.get(x, 0) + abs(ts["exp"])
+    return cnt
+
+
+def r07i_views(ctx):
+    rule = "R07i"
+    node = ctx.model.fn("expr_container:Expr.terms")
+    cn = _canon(ctx)
+    n = 0
+    for ename, terms in view_expressions(ctx.tier).items():
+        for mname, (initial, muts) in view_mutators(ctx.tier).items():
+            name = f"{ename}, {mname}"
+
+            def script(read_first):
+                def run_(sx):
+                    vw = ViewWorld(sx, terms, initial)
+                    if read_first:
+                        _observe(sx, vw)
+                    for meth, args in muts:
+                        sx.call_method(vw.e, meth, list(args), {}, None)
+                        if read_first:
+                            _observe(sx, vw)
+                    return _observe(sx, vw), vw.e
+                return run_
+            res = []
+            for read_first in (True, False):
+                sx = Symex(ctx.model, inline=_inline_views, hooks={}, what=f"views of an Expr[{name}]", max_paths=16,
+                           obj_identity=True, attr_hook=ViewWorld.attr_hook)
+                sx.instance_memo = True
+                outs = sx.run_script(script(read_first))
+                res.append(_one(outs, f"views of {name}"))
+                n += 1
+            (after, e1), (fresh, e2) = res
+            keys = [k for k in (fresh[0] if fresh else {}) if not k.startswith("_") and k != "wrapped"]
+            diff = None
+            if len(after) != len(fresh):
+                diff = ("number of terms", len(after), len(fresh), "-")
+            for k_, (ra, rf) in enumerate(zip(after, fresh)):
+                for k in keys:
+                    if diff is None and _plain(ra[k]) != _plain(rf[k]):
+                        diff = (k, _plain(ra[k]), _plain(rf[k]), k_)
+            ctx.check(rule, node, diff is None, f"{name}: the views report the same after the terms were inspected before every change of the "
+                      "assumptions as without any earlier read",
+                      f"{name}: `{diff[0]}` of term {diff[3]} is {_cut(repr(diff[1]))} when the terms / their fingerprints were read before the "
+                      f"change, and {_cut(repr(diff[2]))} on an expression that was not inspected before: views handed out by Expr.terms keep "
+                      "data computed under the old assumptions (call-history dependent; simplify would compare stale fingerprints)" if diff else "",
+                      key=f"views {name} / history")
+            # independent statement of what the views have to report now
+            prov = sx_final_target(muts, initial)
+            bad = None
+            entries, pentries = [], []
+            for k_, ra in enumerate(after):
+                specs = ra["_specs"]
+                if specs is None:
+                    raise AnalysisError(f"C07: the term views of {name} do not wrap the terms of the expression")
+                cnt = _einstein(specs)
+                want_t = tuple(sorted(prov, key=cn.key)) if prov is not None else tuple(sorted((x for x, c in cnt.items() if c == 1), key=cn.key))
+                want_c = tuple(sorted((x for x, c in cnt.items() if (x not in prov if prov is not None else c > 1)), key=cn.key))
+                got_t, got_c = _plain(ra["target"]), _plain(ra["contracted"])
+                if bad is None and (got_t != want_t or got_c != want_c or any(_plain(x) != want_t for x in ra["object target"])):
+                    bad = (k_, got_t, got_c, want_t, want_c)
+                if bad is None and _plain(ra["provided_target_idx"]) != (want_t if prov is not None else None):
+                    bad = (k_, _plain(ra["provided_target_idx"]), "-", want_t if prov is not None else None, "-")
+                for ts, d in zip(specs, ra["description"]):
+                    tsc = cn.tensor(ts)
+                    grp = tsc["bks"] if tsc["kind"] in ANTI else 0
+                    entries.append((grp, f"{_label(tsc, want_t)} (term {k_})", dkey(tsc, want_t, True, True), d))
+            ctx.check(rule, node, bad is None, f"{name}: target / contracted indices of every term view follow the current assumptions",
+                      f"{name}: term {bad[0]} reports target {bad[1]} / contracted {bad[2]}, the expression now has target {bad[3]} / contracted "
+                      f"{bad[4]}" if bad else "", key=f"views {name} / target")
+            for grp in sorted({g for g, *_ in entries}):
+                partition_check(ctx, rule, node, f"{name}: descriptions after the change (bra-ket symmetry {grp})",
+                                [x[1:] for x in entries if x[0] == grp], f"views {name} / descriptions {grp}",
+                                "objects that agree in type, name, spaces, exponent and CURRENT target names share the description",
+                                "objects that differ in one of them get different descriptions")
+    ctx.floor(rule, "call histories on one Expr evaluated", n, 8)
+
+
+def sx_final_target(muts, initial):
+    """The provided target indices after the history (None: Einstein convention)."""
+    cur = tuple(initial) if initial is not None else None
+    for meth, args in muts:
+        if meth == "set_target_idx":
+            cur = tuple(args[0]) if args[0] is not None else None
+    return cur
+
+
 def run(ctx):
     if ctx.want("R07a") or ctx.want("R07b") or ctx.want("R07c"):
         r07abc_partition(ctx)
@@ -1445,6 +1745,8 @@ def run(ctx):
         r07f_history(ctx)
     if ctx.want("R07g"):
         r07g_order(ctx)
+    if ctx.want("R07i"):
+        r07i_views(ctx)
     if ctx.want("R07e"):
         r07e_objects(ctx)
         r07e_terms(ctx)
